@@ -312,6 +312,15 @@ func (g *Gen) runBody(fr *frame, args []*Value, bindings []*Value, st *State) (*
 			fr.params[fv.Name()] = bindings[i]
 		}
 	}
+	if fn == g.fn {
+		for contractName, codeName := range g.alias { // positional binding of renamed parameters
+			if v, ok := fr.params[codeName]; ok {
+				if _, clash := fr.params[contractName]; !clash {
+					fr.params[contractName] = v
+				}
+			}
+		}
+	}
 	fr.old = st.clone()
 	loops := findLoops(fn)
 	order := rpo(fn)
